@@ -14,7 +14,7 @@ import (
 
 func TestMain(m *testing.M) {
 	document.SetGlobalLevel(document.LogLevelSilent)
-	kit.TestMain(m, 1200, 20000)
+	kit.TestMain(m, 2000, 30000)
 }
 
 var (
